@@ -27,8 +27,11 @@ def expansions_part(ctx):
     rng = __import__("random").Random(run.seed)
     vectors = [["1", "4", "2", "3"], ["0", "1", "1/2", "1", "1/3"], ["2", "9/4", "-1", "2", "1"], ["0", "1", "0", "0"],
                ["-1", "1/4", "1/8", "1/16", "1/32"], ["3", "16", "-4", "8"], ["1/2", "1/9", "1/27", "1/81", "0"], ["0", "4", "1"]]
+    # orders 6 and 7 (Gram-Charlier only: the transcribed Cornish-Fisher expansion stops at five cumulants), skewed
+    vectors += [["1/2", "4", "3", "2", "1", "5"], ["0", "1", "1", "0", "0", "1", "2"], ["1", "9/4", "-2", "1", "1/2", "-1"],
+                ["0", "1", "1/2", "1/3", "1/4", "1/5", "1/6"]]
     for _ in range(4 if run.tier == "quick" else 40):
-        k = rng.choice([3, 4, 5])
+        k = rng.choice([3, 4, 5, 6, 7])
         sig = rng.choice([F(1), F(2), F(1, 2), F(3, 2), F(3)])
         vectors.append([str(F(rng.randint(-3, 3), rng.choice([1, 2]))), str(sig * sig)] +
                        [str(F(rng.randint(-4, 4), rng.choice([1, 2, 3]))) for _ in range(k - 2)])
@@ -50,10 +53,10 @@ def expansions_part(ctx):
                                                            "poly": [{"c": q(c), "e": e} for c, e in o["gc"]]}})
         else:
             exc += 1
-        if "cf" in o and sigma is not None:
+        if "cf" in o and sigma is not None and len(cum) <= 5:
             traces.append({"id": it["vid"] + "-cf", "cf": {"cumulants": [q(c) for c in cum], "sigma": q(sigma),
                                                            "poly": [{"c": q(c), "e": e} for c, e in o["cf"]]}})
-        elif "cf" not in o:
+        elif "cf" not in o and len(cum) <= 5:
             exc += 1
     verdicts = {}
     states = distinct = 0
@@ -114,7 +117,13 @@ def main(tier, seed):
     items.append({"id": "tail-transient", "text": "x = 6\nwhile true:\n    x = x/2 + 1 {1/2} x/2\nend\n", "T": None,
                   "goals": ["x"], "points": [{}], "stat_goals": ["x"], "K": 4, "origin": "tail bounds: transient above the threshold",
                   "tail_goals": [{"monom": "x", "a": a, "moments": 3} for a in ("1", "2", "3")]})
-    return analysis_check("C11", tier, seed, items=items, want=["parsed", "central", "cumulant", "tail"], builders=[C.b_source, C.b_stats, C.b_tail],
+    # closed forms that are piecewise in n (delayed dependencies): cumulants inside the transient, also on the path of
+    # the expansion actions (cli.common.get_all_cumulants with --at_n)
+    for name, text, sg in (("delay_line", "x = 3\ny = 1\nz = 2\ns = 0\nwhile true:\n    x = y\n    y = z\n    z = Bernoulli(1/2)\n    s = s + x\nend\n", ["s", "x"]),
+                           ("delay_choice", "a = 2\nb = 0\nc = 1\nwhile true:\n    a = b\n    b = c\n    c = c + 1 {1/3} 0\nend\n", ["a", "b"])):
+        items.append({"id": "transient-" + name, "text": text, "T": None, "goals": sg, "points": [{}], "stat_goals": sg, "K": 4,
+                      "origin": "transient " + name, "tail_goals": []})
+    return analysis_check("C11", tier, seed, items=items, want=["parsed", "central", "cumulant", "tail", "allcum"], builders=[C.b_source, C.b_stats, C.b_tail],
                           N=8 if quick else 10, timeout=120 if quick else 300, post=expansions_part,
                           assumptions=["orders k <= 4; tail bounds are read from the action's printed output at every n",
                                        "Cornish-Fisher is compared with the standard expansion up to the third bracket (five cumulants), transcribed from the literature into spec/Dists.tla",
